@@ -671,3 +671,92 @@ def _cumpen_ext_proof():
 
 
 LEMMA_PROOFS["L_cumpen_ext"] = _cumpen_ext_proof
+
+
+# ----------------------------------------------------------------------------- C12: relational (symmetry) lemmas over the data spec functions
+# The scorer contracts state "evaluate == f(SUM, SSQ, RSS of the fitted rows)". The lemmas below relate those spec functions for two data
+# arrays X and Y = T(X) (shift / positive scale / column permutation / time reversal), by explicit induction over the recursive definitions
+# (ground instances), plus the algebraic consequences for RSS, the squared CUSUM and the Gaussian cost. Together with the contracts they give
+# the scorer-level part of C12; the detector-level part (search kernels consume only these values) stays with the bounded tier.
+def _sym_syms():
+    X = z3.Function("X!S", _I, _I, _R)
+    Y = z3.Function("Y!S", _I, _I, _R)
+    F = {nm: z3.Function(nm + "!S", _I, _I, _I, _R) for nm in ("SUMX", "SSQX", "SUMY", "SSQY")}
+    return X, Y, F
+
+
+def _sym_defs(F, A, tag, col, s, e_):
+    """ground instances of the recursive definitions of SUM/SSQ of array A (tag 'X' | 'Y') for column `col` at (s, e_)"""
+    SUM, SSQ = F["SUM" + tag], F["SSQ" + tag]
+    return [SUM(col, s, s) == 0, SSQ(col, s, s) == 0,
+            z3.Implies(e_ >= s, z3.And(SUM(col, s, e_ + 1) == SUM(col, s, e_) + A(e_, col), SSQ(col, s, e_ + 1) == SSQ(col, s, e_) + A(e_, col) * A(e_, col)))]
+
+
+def _sym_shift_proof():
+    X, Y, F = _sym_syms()
+    c = z3.Function("c!S", _I, _R)
+    j, s, e = z3.Ints("j!S s!S e!S")
+    rel = lambda i: Y(i, j) == X(i, j) + c(j)
+    P = lambda e_: z3.And(F["SUMY"](j, s, e_) == F["SUMX"](j, s, e_) + z3.ToReal(e_ - s) * c(j),
+                          F["SSQY"](j, s, e_) == F["SSQX"](j, s, e_) + 2 * c(j) * F["SUMX"](j, s, e_) + z3.ToReal(e_ - s) * c(j) * c(j))
+    a, b, a2, b2, m, cc, r, r2, d = z3.Reals("a!S b!S a2!S b2!S m!S cc!S r!S r2!S d!S")
+    return [
+        (".base", _sym_defs(F, X, "X", j, s, s) + _sym_defs(F, Y, "Y", j, s, s), P(s)),
+        (".step", [s <= e, rel(e), P(e)] + _sym_defs(F, X, "X", j, s, e) + _sym_defs(F, Y, "Y", j, s, e), P(e + 1)),
+        # RSS = SSQ - SUM^2/m is unchanged (L2 cost, change score, saving at the optimal mean, Gaussian variance estimate)
+        (".rss", [m > 0, a2 == a + 2 * cc * b + m * cc * cc, b2 == b + m * cc], a2 - b2 * b2 / m == a - b * b / m),
+        # CUSUM: the non-negative score with the given square is unique, so it is unchanged when its square (an RSS difference) is
+        (".cusum", [r >= 0, r2 >= 0, r * r == d, r2 * r2 == d], r == r2),
+    ]
+
+
+def _sym_scale_proof():
+    X, Y, F = _sym_syms()
+    j, s, e = z3.Ints("j!S s!S e!S")
+    k = z3.Real("k!S")
+    rel = lambda i: Y(i, j) == k * X(i, j)
+    P = lambda e_: z3.And(F["SUMY"](j, s, e_) == k * F["SUMX"](j, s, e_), F["SSQY"](j, s, e_) == k * k * F["SSQX"](j, s, e_))
+    a, b, a2, b2, m, m1, m2, v, v1, v2, L, L0, L1, L2, M0, M1, M2 = z3.Reals("a!S b!S a2!S b2!S m!S m1!S m2!S v!S v1!S v2!S L!S L0!S L1!S L2!S M0!S M1!S M2!S")
+    return [
+        (".base", _sym_defs(F, X, "X", j, s, s) + _sym_defs(F, Y, "Y", j, s, s), P(s)),
+        (".step", [s <= e, rel(e), P(e)] + _sym_defs(F, X, "X", j, s, e) + _sym_defs(F, Y, "Y", j, s, e), P(e + 1)),
+        (".rss", [m > 0, a2 == k * k * a, b2 == k * b], a2 - b2 * b2 / m == k * k * (a - b * b / m)),
+        # Gaussian cost m*LOG(2 pi var) + m with var scaled by k^2 (no flooring): each cost moves by m*LOG(k^2) (L = LOG(k^2); Li / Mi are the
+        # logarithms before / after, related by the product axiom of LOG: instances AX_LOG_mul), so the change score (m = m1 + m2) is unchanged
+        (".gauss_cost", [M0 == L + L0], m * M0 + m == (m * L0 + m) + m * L),
+        (".gauss_change_score", [m == m1 + m2, M0 == L + L0, M1 == L + L1, M2 == L + L2],
+         (m * M0 + m) - (m1 * M1 + m1) - (m2 * M2 + m2) == (m * L0 + m) - (m1 * L1 + m1) - (m2 * L2 + m2)),
+    ]
+
+
+def _sym_perm_proof():
+    X, Y, F = _sym_syms()
+    pi = z3.Function("pi!S", _I, _I)
+    j, s, e = z3.Ints("j!S s!S e!S")
+    rel = lambda i: Y(i, j) == X(i, pi(j))
+    P = lambda e_: z3.And(F["SUMY"](j, s, e_) == F["SUMX"](pi(j), s, e_), F["SSQY"](j, s, e_) == F["SSQX"](pi(j), s, e_))
+    return [
+        (".base", _sym_defs(F, X, "X", pi(j), s, s) + _sym_defs(F, Y, "Y", j, s, s), P(s)),
+        (".step", [s <= e, rel(e), P(e)] + _sym_defs(F, X, "X", pi(j), s, e) + _sym_defs(F, Y, "Y", j, s, e), P(e + 1)),
+    ]
+
+
+def _sym_rev_proof():
+    X, Y, F = _sym_syms()
+    j, s, e, n = z3.Ints("j!S s!S e!S n!S")
+    rel = lambda i: Y(i, j) == X(n - 1 - i, j)
+    P = lambda e_: z3.And(F["SUMY"](j, s, e_) == F["SUMX"](j, n - e_, n - s), F["SSQY"](j, s, e_) == F["SSQX"](j, n - e_, n - s))
+    a = n - e - 1
+    # instance of the proved lemma L_add for X: split [a, n-s) at a+1; and the definition at (a, a): SUM(a, a+1) == X(a)
+    add = [F["SUMX"](j, a, n - s) == F["SUMX"](j, a, a + 1) + F["SUMX"](j, a + 1, n - s),
+           F["SSQX"](j, a, n - s) == F["SSQX"](j, a, a + 1) + F["SSQX"](j, a + 1, n - s)]
+    return [
+        (".base", _sym_defs(F, X, "X", j, n - s, n - s) + _sym_defs(F, Y, "Y", j, s, s), P(s)),
+        (".step", [0 <= s, s <= e, e < n, rel(e), P(e)] + add + _sym_defs(F, X, "X", j, a, a) + _sym_defs(F, Y, "Y", j, s, e), P(e + 1)),
+    ]
+
+
+LEMMA_PROOFS["L_sym_shift"] = _sym_shift_proof
+LEMMA_PROOFS["L_sym_scale"] = _sym_scale_proof
+LEMMA_PROOFS["L_sym_perm"] = _sym_perm_proof
+LEMMA_PROOFS["L_sym_rev"] = _sym_rev_proof
